@@ -1158,6 +1158,10 @@ def rand_c12(seed, tier, cases=None):
             f["body"] = max(0, f["body"])
         out.append(dict(fam="C12", kind="payload", valid=True, mtu=mtu, flexible=rng.random() < 0.5, startid=rng.choice([0, 32767, 32766, rng.randint(0, 32767)]),
                         frames=frames, **{"class": "rand_payload"}))
+    # one frame of about 17 MB (beyond 2^24 bytes) through payloader and receiver (lengths and equality facts only)
+    for flex in (True, False):
+        for mtu in (65535, 1200):
+            out.append(dict(fam="C12", kind="huge", huge=17000000, mtu=mtu, flexible=flex, valid=True, **{"class": "huge_frame_17MB"}))
     for flex in (True, False):
         hk = dict(profile=0, existing=False, idx=0, nonkey=False, show=True, errres=False, deep=False, cs=2, range=False, ssx=True, ssy=True, w=640, h=480)
         hn = dict(hk, nonkey=True)
@@ -1211,6 +1215,9 @@ def rand_c14(seed, tier, cases=None):
             units.append([t << 1 | layer >> 5, (layer & 31) << 3 | tid] + [rng.randint(1, 255) for _ in range(n - 2)])
         out.append(dict(fam="C14", kind="payload", valid=True, mtu=mtu, donl=rng.random() < 0.3, skipagg=rng.random() < 0.4,
                         calls=[dict(units=units, scs=[rng.choice([3, 4]) for _ in units])], **{"class": "rand_payload"}))
+    # one unit of about 17 MB (beyond 2^24 bytes) through payloader and receiver (lengths and equality facts only)
+    for mtu in (65535, 1200):
+        out.append(dict(fam="C14", kind="huge", huge=17000000, mtu=mtu, valid=True, **{"class": "huge_unit_17MB"}))
     # a unit cut into 800+ fragments, 300 calls on one payloader (the DONL counter runs on), and 300 units in ONE aggregation packet
     for donl in (False, True):
         out.append(dict(fam="C14", kind="payload", valid=True, mtu=4000, donl=donl, skipagg=False, calls=[dict(units=[unit(1, 4) for _ in range(300)], scs=[3] * 300)], **{"class": "many_units_one_packet"}))
@@ -1482,13 +1489,13 @@ RULE_ADD = {
     "C08": "; the input is a window of a larger caller buffer whose following bytes must stay untouched; the caller appends to / writes over returned fragments; long runs of 250 calls, "
            "inputs cut into 500+ fragments, parameter sets whose sizes sum beyond 2^16, the same access unit again with another MTU",
     "C09": "; receivers may start as application-built values with every field set (VP8, VP9, Opus); long runs of 300 payloads",
-    "C10": "; all access units of a history lie in one stream buffer (which must stay untouched); per-call MTU with repeated parameter sets; re-split parameter-set generations; "
+    "C10": "; one item of 17 MB (beyond 2^24 bytes) through payloader and receiver, judged from lengths and equality facts; all access units of a history lie in one stream buffer (which must stay untouched); per-call MTU with repeated parameter sets; re-split parameter-set generations; "
            "units cut into 800 fragments, 300 calls on one payloader, parameter sets whose sizes sum beyond 2^16",
-    "C11": "; every descriptor is also decoded into a VP8Packet that has decoded a descriptor with every field set; 400-frame runs and frames cut into 600+ packets",
-    "C12": "; every descriptor is also decoded into a VP9Packet that has decoded descriptors with every optional part; 400-frame runs and frames cut into 300+ packets",
-    "C13": "; sizes around one and two packet capacities with every header / length-field offset; 300 elements in one packet; OBU size fields written as padded LEB128 numbers up to "
+    "C11": "; one item of 17 MB (beyond 2^24 bytes) through payloader and receiver, judged from lengths and equality facts; every descriptor is also decoded into a VP8Packet that has decoded a descriptor with every field set; 400-frame runs and frames cut into 600+ packets",
+    "C12": "; one item of 17 MB (beyond 2^24 bytes) through payloader and receiver, judged from lengths and equality facts; every descriptor is also decoded into a VP9Packet that has decoded descriptors with every optional part; 400-frame runs and frames cut into 300+ packets",
+    "C13": "; one item of 17 MB (beyond 2^24 bytes) through payloader and receiver, judged from lengths and equality facts; sizes around one and two packet capacities with every header / length-field offset; 300 elements in one packet; OBU size fields written as padded LEB128 numbers up to "
            "8 bytes; an OBU beyond 2^21 bytes; an OBU cut into 600+ packets",
-    "C14": "; every payload is also decoded into an H265Packet that has decoded payloads of every kind; all access units of a history lie in one stream buffer; 300 units in one "
+    "C14": "; one item of 17 MB (beyond 2^24 bytes) through payloader and receiver, judged from lengths and equality facts; every payload is also decoded into an H265Packet that has decoded payloads of every kind; all access units of a history lie in one stream buffer; 300 units in one "
            "aggregation packet, units cut into 800+ fragments, 300 calls on one payloader, unit pairs whose sizes sum beyond 2^16",
     "C15": "; abandoned units of 4.3 MB and 17 MB; bytes retained from an abandoned unit ending just below 2^20 .. 2^24 (thorough: .. 2^26)",
     "C16": "; the Opus partition flags are probed for every payload incl. nil / empty ones on a used and a fresh packet",
